@@ -113,11 +113,33 @@ def r19_1(ctx):
                     arr = shared.resolve_mem(an, arr)
                 if arr[0] == 'agg' and arr[1] == 'array' and len(arr[4]) == 4 and all(e[1][0] == 'cast' and e[1][2] == 'u8' for e in arr[4]):
                     pushes = [(bi, ('call', d, (ct[2][0], e[1]), ct[3])) for e in arr[4]]
+    slot_form = False
+    if not pushes:
+        # the output pre-sized and filled four bytes at a time: for (rgba, pixel) in output.chunks_exact_mut(4).zip(buf) {
+        # rgba[0] = r as u8; .. rgba[3] = a as u8 }
+        slots = {}
+        for a0, v0, pt0, kind0 in an.stores:
+            if kind0 != 'assign' or a0[0] != 'index' or not (v0[0] == 'cast' and v0[2] == 'u8'):
+                continue
+            k0 = const_val(a0[2])
+            root0, _n0 = field_path(a0[1])
+            if k0 not in (0, 1, 2, 3) or not is_call(root0, 'Iterator::next'):
+                continue
+            D0 = Deps(an)
+            D0.closure(root0[2][0])
+            if any(is_call(x, 'chunks_exact_mut', 'chunks_mut') and len(x[2]) == 2 and const_val(x[2][1]) == 4 for x in D0.visited):
+                slots.setdefault(k0, []).append((pt0[0], ('call', 'store', (a0[1], v0), pt0[0])))
+        if sorted(slots) == [0, 1, 2, 3] and all(len(v) == 1 for v in slots.values()):
+            pushes = [slots[k0][0] for k0 in (0, 1, 2, 3)]
+            slot_form = True
     if not ctx.check(len(pushes) == 4, R, key + '|four pushes', wp.loc(), 'four byte pushes per pixel', 'expected four byte pushes per pixel, found %d' % len(pushes)):
         return
     for i in range(3):
+        if slot_form:
+            break
         if not an.cfg.dominates(pushes[i][0], pushes[i + 1][0]):
-            pushes.sort(key=lambda p: sum(1 for q in pushes if an.cfg.dominates(q[0], p[0])))
+            snapshot = list(pushes)        # (a list looks empty to its own key function while it is being sorted)
+            pushes = sorted(snapshot, key=lambda p: sum(1 for q in snapshot if an.cfg.dominates(q[0], p[0])))
             break
     order = ['r', 'g', 'b', 'a']
     alpha_term = None
